@@ -72,7 +72,33 @@ FUZZ = Stage(
     nontrivial=lambda e: True,
 )
 
+TLV = Stage(
+    family="tlv",
+    mc={"quick": [("MC_Tlv.tla", "MC_Tlv_strict.cfg", "pass"), ("MC_Tlv.tla", "MC_Tlv_lenient.cfg", "pass"),
+                  ("MC_Tlv.tla", "MC_Tlv_neg.cfg", "fail")],
+        "thorough": [("MC_Tlv.tla", "MC_Tlv_strict_t.cfg", "pass"), ("MC_Tlv.tla", "MC_Tlv_lenient_t.cfg", "pass"),
+                     ("MC_Tlv.tla", "MC_Tlv_neg.cfg", "fail")]},
+    parts={"quick": [("", 4)], "thorough": [("", 8)]},
+    trace=("Trace_Tlv.tla", "Trace_Tlv.cfg"),
+    nontrivial=lambda e: True,
+)
+
 CHECKS = {
+    "C16": dict(
+        stages=[TLV],
+        technique="TLA+ model of triplet containers (Tlv.tla): TLC exhaustive on both parser-loop variants and the serialiser's "
+                  "size arithmetic at scaled widths + TLC validation of every recorded container call at the real widths",
+        level_text="TLC checks NoFabrication, exactness on well-formed sequences, loop progress and termination for the strict and "
+                   "the lenient parser loop over all octet strings of length <=7 (thorough 9) over {0,1,2}, and that the serialiser "
+                   "never panics and truncates consistently (size arithmetic wrapping at 8 bits is the negative configuration).  "
+                   "On the real code: random and boundary sets (0..32 parameters, value lengths 65530..65536, 70000), every "
+                   "permutation of emission order for <=4 parameters assembled from real single-triplet serialisations, all strings "
+                   "of length <=5 (thorough 8) over {0,1,2} and random strings through all four parsers, Add on an empty container, "
+                   "TP_udhi on short values; TLC compares each result with Walk/LastWins",
+        level_note="panics/hangs observed by the harness; values above 64 KiB travel as full octet arrays for a handful of cases",
+        rule="one event per container call; distinct = distinct events",
+        assumptions=["encoding/json", "the harness reads container contents through the public map/Value() API"],
+    ),
     "C03": dict(
         stages=[FUZZ],
         technique="TLA+ decoder model with allocation meter and loop-progress property (MC_Decode.tla) + TLC judgement of "
